@@ -90,6 +90,12 @@ package text
 //@   loop 4 invariant forallv(t string, visited(t) ==> contains(ad.Frequencies, t) && contains(terms, t) && terms[t].Frequency == ad.Frequencies[t]) && forallv(t string, contains(terms, t) ==> visited(t)) && fresh(terms)
 //@   loop 4 invariant forallv(t string, visited(t) && !contains(docItem.Terms, t) ==> contains(index.setCache.items, t) && bhas(index.setCache.items[t].value.set, ad.Id))
 
+// the analyser (bleve) is outside the verified code: it touches no modelled state
+//@ func (analyser).Analyse
+//@   trusted
+//@   pure
+//@   allocates
+
 // ---- text search (property C05): one analyser for documents and queries; every result carries
 // hybrid score = score * weight; more than `limit` matches are cut to the first `limit` of the
 // sorted list and the returned bitmap is rebuilt from exactly those.
@@ -97,15 +103,27 @@ package text
 //@   property C05
 //@   floats order
 //@   safety -overflow -makelen -nil
-//@   requires options.Limit >= 1
+//@   requires options.Limit >= 1 && unheld(index.mu)
+//@   requires index.setCache != nil && unheld(index.setCache.itemsMu) && index.setCache.items != nil && forallv(k string, contains(index.setCache.items, k) ==> index.setCache.items[k] != nil)
+//@   requires index.docCache != nil && unheld(index.docCache.itemsMu) && index.docCache.items != nil && forallv(k uint64, contains(index.docCache.items, k) ==> index.docCache.items[k] != nil)
 //@   ensures ncalls(Analyse) == 1 && callarg(Analyse, 1, 0) == index.analyser && callarg(Analyse, 1, 1) == options.Value
 //@   ensures result2 == nil ==> len(result1) <= options.Limit || ncalls(Clear) == 0
 //@   ensures result2 == nil && ncalls(Clear) == 1 ==> len(result1) == options.Limit
 //@   ensures result2 == nil && options.Weight != nil ==> forall(k, 0, len(result1), result1[k].Score != nil && result1[k].HybridScore == *result1[k].Score * *options.Weight)
 //@   ensures result2 == nil && options.Weight == nil ==> forall(k, 0, len(result1), result1[k].Score != nil && result1[k].HybridScore == *result1[k].Score * 1)
 //@   ensures result2 == nil && ncalls(Clear) == 1 ==> forall(k, 0, len(result1), bhas(result0, result1[k].NodeId)) && forallv(x uint64, bhas(result0, x) ==> exists(k, 0, len(result1), result1[k].NodeId == x))
+//@   loop 1 invariant rangeindex >= -1
+//@   loop 2 invariant index.setCache != nil && unheld(index.setCache.itemsMu) && index.setCache.items != nil && forallv(k string, contains(index.setCache.items, k) ==> index.setCache.items[k] != nil)
+//@   loop 3 invariant index.setCache != nil && unheld(index.setCache.itemsMu) && index.setCache.items != nil && forallv(k string, contains(index.setCache.items, k) ==> index.setCache.items[k] != nil)
+//@   loop 3 invariant index.docCache != nil && unheld(index.docCache.itemsMu) && index.docCache.items != nil && forallv(k uint64, contains(index.docCache.items, k) ==> index.docCache.items[k] != nil)
+//@   loop 4 invariant index.setCache != nil && unheld(index.setCache.itemsMu) && index.setCache.items != nil && forallv(k string, contains(index.setCache.items, k) ==> index.setCache.items[k] != nil)
+//@   loop 4 invariant index.docCache != nil && unheld(index.docCache.itemsMu) && index.docCache.items != nil && forallv(k uint64, contains(index.docCache.items, k) ==> index.docCache.items[k] != nil)
+//@   loop 3 invariant forall(k, 0, len(results), results[k].Score != nil && results[k].HybridScore == *results[k].Score * weight)
+//@   loop 5 invariant rangeindex >= -1 && rangeindex < len(results) && len(results) == options.Limit
+//@   loop 5 invariant forall(k, 0, rangeindex+1, bhas(finalSet, results[k].NodeId)) && forallv(x uint64, bhas(finalSet, x) ==> exists(k, 0, rangeindex+1, results[k].NodeId == x))
 //@ func (*indexText).parallelAnalyse$1
 //@   property C05
 //@   safety -overflow
 //@   ensures ncalls(Analyse) == 1 && callarg(Analyse, 1, 0) == index.analyser && callarg(Analyse, 1, 1) == doc.Text
 //@   ensures err == nil ==> ad.Id == doc.Id && ad.Length == len(callres(Analyse, 1, 0)) && !skip
+//@   loop 1 invariant rangeindex >= -1 && rangeindex < len(tokens)
